@@ -144,11 +144,18 @@ def gen_c14(seed):
                 c["sampler"]["t"]["kind"] = "random"
                 k += 1
         sharing["pdomain"] = k >= 2
+    rsf = rnd(seed, "static-factor")
+    for c in conds:
+        if c["kind"] in ("pinn", "mean", "single") and c["sampler"].get("t") and not c["sampler"].get("static") \
+                and c["sampler"]["x"]["dom"] != "pdisc" and rsf.random() < 0.25:
+            # both factors of the product frozen separately instead of the product as a whole
+            c["sampler"]["static_factor"] = True
     rg_ = rnd(seed, "derived-geometry")
     if sharing["domains"] and rg_.random() < 0.3:
         # one condition builds its own geometry FROM a shared domain (disc minus a t-dependent hole), another one
         # samples the shared disc itself together with t
-        cand = [c for c in conds if c["kind"] in ("pinn", "mean", "single") and c["sampler"]["x"]["dom"] != "pdisc"]
+        cand = [c for c in conds if c["kind"] in ("pinn", "mean", "single") and c["sampler"]["x"]["dom"] != "pdisc"
+                and not c["sampler"].get("static_factor")]
         if len(cand) >= 2:
             for c, dname in zip(cand[:2], ("tring", "disc")):
                 c["sampler"]["x"] = {"dom": dname, "kind": "random", "n": c["sampler"]["x"]["n"]}
@@ -161,6 +168,7 @@ def gen_c14(seed):
         # ONE non-static sampler object over x used by several conditions: alone, inside a product with a t-sampler,
         # as the non-periodic sampler of a periodic condition
         cand = [c for c in conds if c.get("sampler") and c["sampler"]["x"]["dom"] not in ("pdisc", "tring") and c["kind"] != "adaptw"
+                and not c["sampler"].get("static_factor")
                 and not (sharing.get("derived") and c["sampler"]["x"]["dom"] == "disc")]
         if len(cand) >= 2:
             x0 = dict(cand[0]["sampler"]["x"])
